@@ -1,12 +1,14 @@
 import MayVerif.Proof.Runtime.Park.StepK0
 import MayVerif.Proof.Runtime.Park.StepK1
+import MayVerif.Proof.Runtime.Park.StepK2
 namespace MayVerif.Park
 
 theorem inv_stepK (s s' : St) (h : Inv s) (hs : stepK s = some s') : Inv s' := by
-  have h2 : kgrp s.kpc = 0 ∨ kgrp s.kpc = 1 := by
+  have h2 : kgrp s.kpc = 0 ∨ kgrp s.kpc = 1 ∨ kgrp s.kpc = 2 := by
     cases s.kpc <;> simp [kgrp]
-  rcases h2 with h0 | h1
+  rcases h2 with h0 | h1 | h2
   · exact inv_stepK0 s s' h h0 hs
   · exact inv_stepK1 s s' h h1 hs
+  · exact inv_stepK2 s s' h h2 hs
 
 end MayVerif.Park
